@@ -30,7 +30,7 @@ type verdict struct{ sig, detail string }
 func isHook(k string) bool { return strings.HasPrefix(k, "hook:") }
 
 // lifecycle state machine over one actor path
-func checkPath(path string, evs []world.Ev) *verdict {
+func checkPath(path string, evs []world.Ev, spawnOK int) *verdict {
 	const (
 		none = iota
 		await
@@ -43,6 +43,7 @@ func checkPath(path string, evs []world.Ev) *verdict {
 	lastInst := -1
 	killedInst := -1
 	restartPending := false
+	lateSpawn := map[int]bool{}
 	for i, e := range evs {
 		ctx := func() string {
 			lo := i - 6
@@ -75,7 +76,12 @@ func checkPath(path string, evs []world.Ev) *verdict {
 					state = zombieOrAwait
 				}
 			case running, await, zombieOrAwait:
-				// a second spawn under a live name: ActorOf fails with AlreadyExists after calling the hook
+				// a second spawn under a live name: ActorOf calls the hook first and then normally fails with
+				// AlreadyExists - unless the current life ends between the hook and the registration (spawn racing
+				// a kill): then this instance is the next life and its OnLaunch comes without a further hook
+				if !failed {
+					lateSpawn[e.Inst] = true
+				}
 			}
 		case e.Kind == "hook:prerestart":
 			if state == zombie || state == zombieOrAwait {
@@ -104,6 +110,10 @@ func checkPath(path string, evs []world.Ev) *verdict {
 				restartPending = true
 			}
 		case e.Kind == "launch":
+			if (state == dead || state == none) && lateSpawn[e.Inst] && !restartPending {
+				state = await // the spawn that overlapped the previous life
+				delete(lateSpawn, e.Inst)
+			}
 			if state != await && state != zombieOrAwait {
 				what := map[int]string{none: "never spawned", running: "already running", dead: "terminated", zombie: "a zombie"}[state]
 				return &verdict{"C05/onlaunch|not-starting", fmt.Sprintf("%s received OnLaunch although it is %s (an OnLaunch it did not earn): %s", path, what, ctx())}
@@ -134,7 +144,15 @@ func checkPath(path string, evs []world.Ev) *verdict {
 			}
 		}
 	}
-	if state == await {
+	// a successful OnPrelaunch does not mean the spawn succeeded (ActorOf can still lose the name to a predecessor that
+	// is being cleaned up): an OnLaunch is owed for every ActorOf that returned a reference
+	launches := 0
+	for _, e := range evs {
+		if e.Kind == "launch" {
+			launches++
+		}
+	}
+	if state == await && launches < spawnOK {
 		return &verdict{"C05/onlaunch|missing", fmt.Sprintf("%s: an incarnation was started but never received OnLaunch: %s", path, world.Fmt(evs[max(0, len(evs)-8):]))}
 	}
 	return nil
@@ -186,7 +204,7 @@ func run(t *testing.T, s world.Scenario) (v *verdict, nontrivial bool, labels []
 				continue
 			}
 			evs := per[p]
-			if vv := checkPath(p, evs); vv != nil {
+			if vv := checkPath(p, evs, spawnOK[p]); vv != nil {
 				v = vv
 				return
 			}
